@@ -388,3 +388,65 @@ pub proof fn lemma_resv(o: Map<usize, usize>, k: usize, s: usize, h: Map<usize, 
     assert(r.contains_key(k) && v.contains_key(ns));
     assert(v.contains_key(ns) && ns <= ns + v[ns] - 1 < ns + v[ns]);
 }
+
+// L8: a reservation becomes a live region in place (creation = L3/L4 followed by this)
+pub proof fn lemma_reserved_to_region(o: Map<usize, usize>, h: Map<usize, usize>, p: Map<usize, usize>, v: Map<usize, usize>, ns: usize)
+    requires tiles4(o, h, p, v), v.contains_key(ns)
+    ensures
+        !o.contains_key(ns),
+        tiles4(o.insert(ns, v[ns]), h, p, v.remove(ns)),
+        forall|x: int| cover4(o.insert(ns, v[ns]), h, p, v.remove(ns), x) <==> cover4(o, h, p, v, x),
+{
+    let n = v[ns];
+    let r1 = o.insert(ns, n);
+    let v1 = v.remove(ns);
+    assert(n > 0 && ns + n <= usize::MAX);
+    assert(!o.contains_key(ns)) by { if o.contains_key(ns) { assert(o.contains_key(ns) && v.contains_key(ns)); assert(o[ns] > 0); assert(ns + o[ns] <= ns || ns + n <= ns); } }
+    assert(pairwise_disjoint(r1)) by {
+        assert forall|a: usize| #[trigger] r1.contains_key(a) implies r1[a] > 0 && a + r1[a] <= usize::MAX by { if a != ns { assert(o.contains_key(a)); } }
+        assert forall|a: usize, b: usize| r1.contains_key(a) && r1.contains_key(b) && a < b implies a + r1[a] <= b by {
+            if a == ns { assert(o.contains_key(b) && v.contains_key(ns)); assert(b + o[b] <= ns || ns + n <= b); assert(o[b] > 0); }
+            else if b == ns { assert(o.contains_key(a) && v.contains_key(ns)); assert(a + o[a] <= ns || ns + n <= a); }
+            else { assert(o.contains_key(a) && o.contains_key(b)); }
+        }
+    }
+    assert(pairwise_disjoint(v1)) by {
+        assert forall|a: usize| #[trigger] v1.contains_key(a) implies v1[a] > 0 && a + v1[a] <= usize::MAX by { assert(v.contains_key(a)); }
+        assert forall|a: usize, b: usize| v1.contains_key(a) && v1.contains_key(b) && a < b implies a + v1[a] <= b by { assert(v.contains_key(a) && v.contains_key(b)); }
+    }
+    assert(disjoint_maps(r1, h)) by { assert forall|a: usize, b: usize| r1.contains_key(a) && h.contains_key(b) implies (a + r1[a] <= b || b + h[b] <= a) by {
+        if a == ns { assert(v.contains_key(ns) && h.contains_key(b)); } else { assert(o.contains_key(a)); } } }
+    assert(disjoint_maps(r1, p)) by { assert forall|a: usize, b: usize| r1.contains_key(a) && p.contains_key(b) implies (a + r1[a] <= b || b + p[b] <= a) by {
+        if a == ns { assert(p.contains_key(b) && v.contains_key(ns)); } else { assert(o.contains_key(a)); } } }
+    assert(disjoint_maps(r1, v1)) by { assert forall|a: usize, b: usize| r1.contains_key(a) && v1.contains_key(b) implies (a + r1[a] <= b || b + v1[b] <= a) by {
+        assert(v.contains_key(b) && b != ns);
+        if a == ns { assert(v.contains_key(ns) && v.contains_key(b)); if ns < b { assert(ns + n <= b); } else { assert(b + v[b] <= ns); } }
+        else { assert(o.contains_key(a)); }
+    } }
+    assert(disjoint_maps(v1, h)) by { assert forall|a: usize, b: usize| v1.contains_key(a) && h.contains_key(b) implies (a + v1[a] <= b || b + h[b] <= a) by { assert(v.contains_key(a)); } }
+    assert(disjoint_maps(p, v1)) by { assert forall|a: usize, b: usize| p.contains_key(a) && v1.contains_key(b) implies (a + p[a] <= b || b + v1[b] <= a) by { assert(v.contains_key(b)); } }
+    assert forall|x: int| cover4(r1, h, p, v1, x) <==> cover4(o, h, p, v, x) by {
+        lemma_cover_insert(o, ns, n, x); lemma_cover_remove(v, ns, x);
+        if ns <= x < ns + n { assert(v.contains_key(ns) && ns <= x < ns + v[ns]); }
+    }
+    assert forall|x: int, y: int| 0 <= x <= y && #[trigger] cover4(r1, h, p, v1, y) implies #[trigger] cover4(r1, h, p, v1, x) by {
+        assert(cover4(o, h, p, v, y)); assert(cover4(o, h, p, v, x));
+    }
+}
+
+// the end of everything is determined by the four maps
+pub proof fn lemma_end_unique(r: Map<usize, usize>, h: Map<usize, usize>, p: Map<usize, usize>, v: Map<usize, usize>, e1: usize, e2: usize)
+    requires
+        forall|a: usize| r.contains_key(a) ==> a + r[a] <= e2, forall|a: usize| h.contains_key(a) ==> a + h[a] <= e2,
+        forall|a: usize| p.contains_key(a) ==> a + p[a] <= e2, forall|a: usize| v.contains_key(a) ==> a + v[a] <= e2,
+        e1 == 0 || cover4(r, h, p, v, e1 - 1),
+    ensures e1 <= e2
+{
+    if e1 != 0 {
+        let x = e1 - 1;
+        if covers(r, x) { let a = choose|a: usize| r.contains_key(a) && a <= x < a + r[a]; assert(a + r[a] <= e2); }
+        else if covers(h, x) { let a = choose|a: usize| h.contains_key(a) && a <= x < a + h[a]; assert(a + h[a] <= e2); }
+        else if covers(p, x) { let a = choose|a: usize| p.contains_key(a) && a <= x < a + p[a]; assert(a + p[a] <= e2); }
+        else { let a = choose|a: usize| v.contains_key(a) && a <= x < a + v[a]; assert(a + v[a] <= e2); }
+    }
+}
